@@ -127,7 +127,7 @@ package builder
 // depth; a bucket that is split passes its fanout, prefix width and hash function on unchanged and
 // sits one level deeper.
 //@ func (*data/builder.shard).add
-//@ prop C02 C10
+//@ prop C02 C08 C10
 //@ ensures running-out-of-hash-bits-is-an-error-never-a-silent-drop: (s.depth + 1) * s.sizeLg2 > 8 * len(lnk.hash) ==> err != nil
 //@ at call mapupdate#0 assert an-occupied-bucket-is-only-ever-replaced-by-a-sub-shard: upd_map == s.children && (upd_had ==> upd_value.shard != nil && upd_value.hamtLink == nil)
 //@ at call (*data/builder.shard).add#2 assert the-link-that-was-in-the-bucket-moves-into-the-new-sub-shard: callee_lnk.PBLink == current.hamtLink.PBLink
@@ -136,6 +136,9 @@ package builder
 //@ at call (data/builder.hashBits).Slice#1 assert bucket-is-the-hash-bits-of-this-depth: callee_offset == s.depth * s.sizeLg2 && callee_width == s.sizeLg2
 //@ at call (*data/builder.shard).add#2 assert split-bucket-is-one-level-deeper: callee_recv.depth == s.depth + 1 && callee_recv.size == s.size && callee_recv.sizeLg2 == s.sizeLg2 && callee_recv.width == s.width && callee_recv.hasher == s.hasher
 //@ domain bounded-depth: 0 <= s.depth && s.depth <= 64
+// add has no failure of its own: the only errors it reports are the one its bit-slice reports (the
+// hash has no bits left for this depth, see hashBits.Slice) and the ones a sub-shard's add reports.
+//@ forbids fmt.Errorf errors.New
 
 //@ func (*data/builder.shard).formatLinkName
 //@ prop C02 C08
